@@ -169,7 +169,7 @@ def run(ctx, res):
     res.extra["engine"] = stats
     res.rule = ("(i) per date and population (first row a zero-income child, and the reverse order): every node of the default targets' graph "
                 "is computed with rounding off; for every scalar rule column the dtype must be the declared one and EVERY cell must equal "
-                "the raw Python rule called on that row's inputs (taken from the same run) — exact equality; (ii) every rule is called as a "
+                "the raw Python rule called on that row's inputs (taken from the same run) — exact equality; every second population is run in debug mode: the rules are then re-applied to the inputs SHOWN in the result row, and the shown inputs must equal the inputs (values and dtype); all tables carry permuted / offset index labels and a result without one row per input row is a violation; (ii) every rule is called as a "
                 "scalar function on generated inputs at eight dates and the Python type of each result must cast losslessly to the declared "
                 "return type. distinct = rule columns + rules called.")
 
